@@ -346,7 +346,6 @@ func (fr *frame) callInline(p *Path, e *ast.CallExpr, fi *FuncInfo, recv Value, 
 		return one(p, OpaqueVal{"nobody"})
 	}
 	saved := p.Vars
-	savedOrd := p.CallOrd
 	p.Vars = map[types.Object]Value{}
 	bindParams(p, fi, recv, args)
 	var rets []*Path
@@ -368,7 +367,6 @@ func (fr *frame) callInline(p *Path, e *ast.CallExpr, fi *FuncInfo, recv Value, 
 		r.Returned = false
 		r.Ret = nil
 		r.Vars = saved
-		r.CallOrd = savedOrd
 		out = append(out, PV{r, val})
 	}
 	return out
